@@ -1,7 +1,7 @@
 (* C07 A range query equals the sequence of instant queries on its step grid.
    Property theorems only; proofs in Compose.v (over Select/Shard/Grid proofs). *)
 From Coq Require Import List ZArith NArith Bool.
-From Verif Require Import Base Grid Select Shard Exec Compose.
+From Verif Require Import Base Grid Select Shard Exec Compose Bin BinProofs.
 Import ListNotations.
 Open Scope Z_scope.
 
@@ -33,3 +33,22 @@ Theorem C07_range_is_instants : forall c c' w p t,
   (In t (grid w) -> In (denote (c_lookback c) p t) (concat (run c w p))).
 Proof. exact range_is_instants. Qed.
 Print Assumptions C07_range_is_instants.
+
+(* The vector/vector binary operator keeps a table across steps (Bin.v); the
+   operator trees above treat per-step operators as functions of the step. For
+   the join this is a theorem: what a range query computes at a step is what
+   the one-step query at that timestamp computes, whatever the reused table
+   held before (any number of steps, any cardinality). *)
+Theorem C07_join_range_is_instants :
+  forall (V : Type) (dflt : V) (op : V -> V -> V * bool) (b2v : bool -> V) (on : bool) (ml incl : list N)
+         (c : Bin.card) (return_bool op_drops_name : bool) (lhs_series rhs_series : list labels),
+  BinProofs.one_side_unique on ml (BinProofs.one_side_series c lhs_series rhs_series) ->
+  forall steps prev, (Bin.noT <= prev)%Z -> BinProofs.increasing V prev steps ->
+  Forall (BinProofs.good_step V lhs_series rhs_series) steps ->
+  forall s, In s steps ->
+  exists out outs,
+    Bin.run_operator V dflt op b2v on ml incl c return_bool op_drops_name lhs_series rhs_series [s] = inl [(fst (fst s), out)] /\
+    Bin.run_operator V dflt op b2v on ml incl c return_bool op_drops_name lhs_series rhs_series steps = inl outs /\
+    In (fst (fst s), out) outs.
+Proof. exact BinProofs.join_range_is_instants. Qed.
+Print Assumptions C07_join_range_is_instants.
